@@ -396,6 +396,9 @@ def concat(a: Str, b: Str) -> Str:
 def s_alt(cond, a: Str, b: Str) -> Str:
     if a == b:
         return a
+    # `x if not flag else y` and `y if flag else x` are the same alternative: a test on a bare context flag is kept positive
+    if isinstance(cond, Sym) and cond.kind == "op" and cond.args[0] == "not" and isinstance(cond.args[1], (Inh, InhOr)):
+        cond, a, b = cond.args[1], b, a
     # factor common prefix / suffix so clause sequences stay linear
     pa, pb = a.parts, b.parts
     i = 0
@@ -475,6 +478,7 @@ class Frame:
         self.live_cond: list = []
         self.in_loop = 0
         self.breaks: list = []
+        self.continues: list = []
 
 
 class Evaluator:
@@ -735,6 +739,9 @@ class Evaluator:
         elif isinstance(st, ast.Break):
             fr.breaks.append((list(fr.live_cond), dict(fr.env)))
             fr.live = False
+        elif isinstance(st, ast.Continue):
+            fr.continues.append((list(fr.live_cond), dict(fr.env)))
+            fr.live = False
         elif isinstance(st, ast.FunctionDef):
             fr.env[st.name] = Sym("localfunc", (st.name,))
         elif isinstance(st, ast.Assert):
@@ -817,6 +824,18 @@ class Evaluator:
             fr.live = False
             fr.live_cond = lc0
 
+    def _rejoin_continues(self, fr: Frame, nc: int, lc_it: list) -> None:
+        """paths that left the loop body through `continue` meet the path that reached its end"""
+        mine = fr.continues[nc:]
+        del fr.continues[nc:]
+        for cconds, cenv in mine:
+            cc = conj(cconds[len(lc_it):])
+            if fr.live:
+                fr.env = self.join_env(cc, cenv, fr.env)
+            else:
+                fr.env, fr.live = cenv, True
+            fr.live_cond = list(lc_it)
+
     def join_env(self, cond, a: dict, b: dict) -> dict:
         out = {}
         for k in set(a) | set(b):
@@ -837,9 +856,12 @@ class Evaluator:
                     return
                 self.assign(st.target, i.value, fr, st)
                 nb = len(fr.breaks)
+                nc = len(fr.continues)
+                lc_it = list(fr.live_cond)
                 self.exec_block(st.body, fr)
                 if len(fr.breaks) != nb:
                     self.unsupported(st, fr, "break in unrolled loop")
+                self._rejoin_continues(fr, nc, lc_it)
             return
         # abstract iteration: body once, accumulators recognised
         stores = set()
@@ -865,8 +887,11 @@ class Evaluator:
         fr.live_cond = lc0 + [Sym("in-loop", (it,))]
         fr.in_loop += 1
         nb = len(fr.breaks)
+        nc = len(fr.continues)
         depth = len(fr.live_cond)
+        lc_it = list(fr.live_cond)
         self.exec_block(st.body, fr)
+        self._rejoin_continues(fr, nc, lc_it)
         fr.in_loop -= 1
         my_breaks = fr.breaks[nb:]
         del fr.breaks[nb:]
